@@ -1,18 +1,126 @@
 """per-property extras: Kani back end, replay searchers, uncovered-function lists, assumption notes"""
 import json
 import os
+import re
+import shutil
+import subprocess
+import time
 
 VERIF = os.path.dirname(os.path.dirname(os.path.abspath(__file__)))
+REPO = os.environ.get("VERIF_REPO", "/repo")
 
 COMMON_ASSUMPTIONS = [
     "extraction rules E0-E11 (tools/vx) preserve the meaning of the extracted functions; every splice is listed in build/<unit>/<unit>.audit.txt",
     "E5: raw-pointer element access `*p.add(e)` is modelled as checked indexing X[e] of the Vec the pointer was taken from; the generated bound e < X.len() is exactly the UB condition of the original",
+    "E4: assert!/panic!/expect/unwrap are modelled as a diverging vpanic()/vexpect(): panicking is an allowed outcome, message formatting is dropped",
     "usize is 64 bits (global size_of usize == 8)",
     "vstd's assumed specifications of Vec / VecDeque / BTreeSet / BTreeMap / slices / iterators",
-    "trait-level dispatch is resolved by name to the extracted function or to the stated trait contract (E1/E2)",
+    "trait-level dispatch is resolved by name to the extracted function or to the stated trait contract (E1/E2); a representation whose method is not itself proved against the trait contract is assumed to satisfy it",
+    "a definite 'not satisfied' verdict of Verus/Z3 on an obligation that is discharged on the unchanged tree is reported as a violation; resource-outs are reported as undecided",
 ]
 
+# ---------------------------------------------------------------------------------------------
+# Kani
+# ---------------------------------------------------------------------------------------------
+KANI = {
+    "C15": {
+        "quick": ["next_f64_in_unit_interval"],
+        "thorough": ["next_f64_in_unit_interval"],
+        "flags": ["-Z", "function-contracts"],
+        "complete": True,
+        "functions": ["Xoshiro256StarStar::next_f64 (src/gen/prng/xoshiro256_star_star.rs) [kani function contract, loop-free, all 2^256 states]"],
+    },
+    "C18": {
+        "quick": [],
+        "thorough": [],
+        "flags": [],
+        "complete": False,
+        "functions": ["DistanceMatrix::{new, eccentricities, diameter, center, periphery, is_connected, Index<(usize,usize)>, IndexMut<(usize,usize)>} (src/algo/distance_matrix.rs) [kani, BOUNDED: fixed orders]"],
+    },
+}
 
+
+def kani_harnesses(prop, tier):
+    k = KANI.get(prop)
+    if not k:
+        return []
+    if prop == "C18":
+        # measured: center at order 2 ~110 s, at order 3 ~650 s (Vec push/clear); ecc/periphery at order 3 ~20 s
+        sel = [(1, "new ecc center periphery"), (2, "new ecc center periphery"), (3, "new ecc periphery")]
+        if tier == "thorough":
+            sel = [(1, "new ecc center periphery"), (2, "new ecc center periphery"), (3, "new ecc center periphery"), (4, "new ecc")]
+        hs = []
+        for n, ms in sel:
+            for w in ("usize", "isize"):
+                for m in ms.split():
+                    hs.append("dm_%s_%s_%d" % (m, w, n))
+        return hs
+    return k[tier]
+
+
+def run_kani(prop, tier, seed):
+    hs = kani_harnesses(prop, tier)
+    if not hs:
+        return {}
+    k = KANI[prop]
+    kdir = os.path.join(VERIF, "kani")
+    try:
+        shutil.copy(os.path.join(REPO, "Cargo.lock"), os.path.join(kdir, "Cargo.lock"))
+    except Exception:
+        pass
+    # the harness crate depends on /repo by path; when VERIF_REPO points elsewhere, patch a copy of the manifest
+    manifest = open(os.path.join(kdir, "Cargo.toml")).read()
+    env = dict(os.environ)
+    env["CARGO_NET_OFFLINE"] = "true"
+    work = kdir
+    if REPO != "/repo":
+        work = os.path.join(VERIF, "build", "kani-alt")
+        shutil.rmtree(work, ignore_errors=True)
+        shutil.copytree(kdir, work)
+        open(os.path.join(work, "Cargo.toml"), "w").write(manifest.replace('path = "/repo"', 'path = "%s"' % REPO))
+    cmd = ["cargo", "kani"] + k["flags"] + ["--output-format", "terse", "-j", "12"]
+    for h in hs:
+        cmd += ["--harness", h]
+    t0 = time.time()
+    try:
+        p = subprocess.run(cmd, cwd=work, env=env, capture_output=True, text=True, timeout=3300)
+        out = p.stdout + "\n" + p.stderr
+        rc = p.returncode
+    except subprocess.TimeoutExpired as e:
+        out = (e.stdout or "") + "\n" + (e.stderr or "") if isinstance(e.stdout, str) else ""
+        rc = -9
+    wall = time.time() - t0
+    res = {"cmds": [" ".join(cmd)], "obligations": [], "failures": [], "undecided": [], "samples": [], "solver_time_s": 0.0,
+           "functions": k["functions"], "bounded": [], "trusted_base": ["Kani 0.68 / CBMC 6.11 (bit-precise, including IEEE-754 floats)"], "assumptions": []}
+    m = re.search(r"Complete - (\d+) successfully verified harnesses, (\d+) failures, (\d+) total", out)
+    failed = set(re.findall(r"Verification failed for - (\S+)", out))
+    for t in re.findall(r"Verification Time: ([0-9.]+)s", out):
+        res["solver_time_s"] += float(t)
+    res["solver_time_s"] = round(res["solver_time_s"], 2)
+    if rc == -9 or not m or int(m.group(3)) != len(hs):
+        res["undecided"].append("kani did not complete for %s (exit %s): %s" % (prop, rc, out[-1500:]))
+        return res
+    for h in hs:
+        oid = "kani::%s" % h
+        res["obligations"].append(oid)
+        bad = [f for f in failed if f.endswith("::" + h) or f == h]
+        if bad:
+            detail = ""
+            mm = re.search(r"Failed Checks:[^\n]*\n(?:.*\n){0,6}", out)
+            if mm:
+                detail = mm.group(0)
+            res["failures"].append({"obligation": oid, "fn": h, "props": [prop], "msg": "kani harness failed", "rendered": detail or "see kani output", "hint": False, "unit": "kani", "orig": "kani/src/lib.rs"})
+    if not k["complete"]:
+        res["bounded"].append("C18 metrics: Kani harnesses at fixed orders %s only (entries and infinity fully symbolic, unwinding assertions on): complete for those orders, silent about larger ones" % sorted(set(int(h.rsplit("_", 1)[1]) for h in hs)))
+    res["samples"] = [{"id": "kani::" + h, "clause": "harness %s in kani/src/lib.rs" % h} for h in hs[:4]]
+    covers = re.findall(r"(\d+) of (\d+) cover properties satisfied", out)
+    for a, b in covers:
+        if a != b:
+            res["undecided"].append("kani cover property unsatisfied (vacuity guard) in %s" % prop)
+    return res
+
+
+# ---------------------------------------------------------------------------------------------
 def uncovered(prop):
     p = os.path.join(VERIF, "uncovered.json")
     if os.path.exists(p):
@@ -25,17 +133,43 @@ def assumptions(prop):
 
 
 def run(prop, tier, seed):
-    return {}
+    r = run_kani(prop, tier, seed)
+    if prop == "C18" and r:
+        r["level"] = "other"
+    return r
 
 
 def search(prop, seed, failures):
-    return {"input": None, "note": "no searcher for this property yet"}
+    """concrete-input searcher against the real crate (replay/): returns {'input': ..} or {'input': None}"""
+    exe = os.path.join(VERIF, "build", "replay-target", "release", "search")
+    rdir = os.path.join(VERIF, "replay")
+    env = dict(os.environ)
+    env["CARGO_NET_OFFLINE"] = "true"
+    try:
+        if REPO != "/repo":
+            return {"input": None, "note": "searcher is bound to /repo"}
+        shutil.copy(os.path.join(REPO, "Cargo.lock"), os.path.join(rdir, "Cargo.lock"))
+        b = subprocess.run(["cargo", "build", "--release", "--bin", "search"], cwd=rdir, env=env, capture_output=True, text=True, timeout=600)
+        if b.returncode != 0:
+            return {"input": None, "note": "searcher did not build: " + b.stderr[-800:]}
+        p = subprocess.run([exe, prop, str(seed)], capture_output=True, text=True, timeout=600)
+        for ln in p.stdout.split("\n"):
+            if ln.startswith("FOUND "):
+                return {"input": json.loads(ln[6:]), "note": "bounded-exhaustive search over small inputs against the real crate"}
+        return {"input": None, "note": "searcher found no failing input (exit %d): %s" % (p.returncode, p.stdout[-300:])}
+    except Exception as e:  # searcher is best effort
+        return {"input": None, "note": "searcher error: %r" % e}
 
 
 def replay(prop, path):
     d = json.load(open(path))
-    print(json.dumps(d.get("failed_obligations"), indent=1))
+    print("failed obligations:")
+    for o in d.get("failed_obligations", []):
+        print("  " + o)
     if d.get("failing_input") is None:
-        print("no failing input recorded (verifier gave no counterexample); the failed obligations and verifier output are in the file")
+        print("no failing input recorded (the verifier gave no counterexample); the failed obligations and verifier output are in the file")
         return 0
-    return 0
+    exe = os.path.join(VERIF, "build", "replay-target", "release", "search")
+    p = subprocess.run([exe, prop, "--replay", json.dumps(d["failing_input"])], capture_output=True, text=True)
+    print(p.stdout)
+    return 1 if "FOUND" in p.stdout else 0
